@@ -8,6 +8,7 @@ THEOREMS = {
     'C02': TABLES + [],
     'C06': TABLES + [],
     'C03': ['BB.Lemmas.walk_layout', 'BB.Props.C03.assemble_layout'],
+    'C08': ['BB.Lemmas.walk_layout', 'BB.Props.C03.assemble_layout'],
     'C09': ['BB.Lemmas.walk_layout', 'BB.Props.C03.assemble_layout'],
     'C07': ['BB.Props.C07.' + n for n in ('hi_range', 'lo_range', 'hi_lo_sum', 'hi_lo_sum_exact', 'utype_accepts_hi',
                                           'itype_accepts_lo', 'stype_accepts_lo', 'pair_rebuilds')],
